@@ -6,7 +6,7 @@ THEOREMS = ['FlexVerif.validate_sound', 'FlexVerif.Re.pderiv_correct']
 
 def run(ctx):
     q1, q2, q3 = {'quick': (64, 48, 32), 'thorough': (600, 400, 200)}[ctx.tier]
-    plan = [('plain', q1, 8), ('ops', q2, 6), ('unput', q3, 4), ('trail', q2, 6), ('reject', q3, 4), ('stdioint', q3, 6)]
+    plan = [('plain', q1, 8), ('ops', q2, 6), ('unput', q3, 4), ('trail', q2, 6), ('reject', q3, 4), ('stdioint', q3, 6), ('sevennul', q3, 4)]
     return rtprop.run(ctx, THEOREMS, plan, 'exploration',
                       'NUL and 8-bit bytes: generated inputs carry NUL (weight 2/11), 0x80 and 0xff; patterns mention them; all table modes, interactive and batch, with trailing context (fixed and variable) and REJECT; traces must equal the byte-agnostic abstract scanner' + '. Kernel-checked theorems about the abstract scanner (listed under obligations) + differential '
                       'correspondence of the real generated scanner (ASan/UBSan build) with that model on generated cases.')
